@@ -38,21 +38,37 @@ Example c02_example :
 Proof. vm_compute. split; reflexivity. Qed.
 
 (* REFINEMENT.  From each of the five start states, with any temporary buffer (last start tag name), CDATA
-   allowed or not, and ANY input: if the run of M_tok stays within the covered configurations (Proofs/C02simtac.v
-   [covered]: every state method except the steps that consume a character reference and CDATA sections), then
+   allowed or not, and ANY input: if the run of M_tok never enters a CDATA section ([covered], Proofs/C02simmain.v:
+   every state but cdataSectionState -- reachable only from "<![CDATA[" when the tree builder allows it), then
    it is a run of the model's main loop, S_tok -- the per-character WHATWG machine of Spec/TokSpec.v -- also
    terminates, its result is unique, and its token stream is M_tok's with parse errors dropped and character
-   tokens split into single characters ([flat]); both stop in the same state at the same input position.
-   No bound on the input or on the number of steps: the proof is a simulation, one lemma per state method
-   (Proofs/C02sim_*.v), re-checked against the regenerated Gen/Tokenizer.v on every run. *)
+   tokens split into single characters ([flat]); both stop in the same state at the same input position
+   ([sst]/[sinp]: html5lib's two extra character-reference states stand for data/RCDATA before the "&").
+   Character references are included: consumeEntity is related to the standard's rules by Proofs/C02charref.v
+   on top of C14's longest-match and numeric theorems.  No bound on the input or on the number of steps: the
+   proof is a simulation, one lemma per state method (Proofs/C02sim_*.v), re-checked against the regenerated
+   Gen/Tokenizer.v on every run. *)
 Theorem c02_refines_whatwg : forall s0 t cd i n mf,
   start_state s0 = true ->
   run_cov n (init_tk s0 CNone t cd i) = Some mf ->
   run_loop n (init_tk s0 CNone t cd i) = Some mf /\
   exists n' sf, sp_run n' (init_tk s0 CNone t cd i) = Some sf /\
                 (forall n'' sf', sp_run n'' (init_tk s0 CNone t cd i) = Some sf' -> sf' = sf) /\
-                rev (out sf) = flat (rev (out mf)) /\ inp sf = inp mf /\ st sf = st mf.
+                rev (out sf) = flat (rev (out mf)) /\ inp sf = sinp mf /\ st sf = sst mf.
 Proof. exact tokenizer_refines_whatwg. Qed.
+
+(* THE PROPERTY, for CDATA sections not allowed (the configuration of every HTML-namespace context): for EVERY
+   input, every one of the five start states and every last-start-tag name the model's tokenizer terminates,
+   and the WHATWG machine terminates with the same token stream (parse errors dropped, character tokens split),
+   at the same input position in the same state.  No premise about the run is left. *)
+Theorem c02_equals_whatwg_when_cdata_not_allowed : forall s0 t i,
+  start_state s0 = true ->
+  exists mf n' sf,
+    tokenize s0 CNone t false i = Some mf /\
+    sp_run n' (init_tk s0 CNone t false i) = Some sf /\
+    (forall n'' sf', sp_run n'' (init_tk s0 CNone t false i) = Some sf' -> sf' = sf) /\
+    rev (out sf) = flat (rev (out mf)) /\ inp sf = sinp mf /\ st sf = sst mf.
+Proof. exact tokenizer_equals_whatwg_no_cdata. Qed.
 
 (* the same from ANY related pair of configurations (mid-run, any state, any current token of the right kind) *)
 Theorem c02_refinement_from_any_configuration : forall n m s mf,
@@ -64,15 +80,15 @@ Proof. exact refinement. Qed.
    upper case, all three value syntaxes), a comment, a bogus comment, RCDATA-like text and an end tag *)
 Example c02_refinement_example :
   let i := [60;33;68;79;67;84;89;80;69;32;104;116;109;108;32;80;85;66;76;73;67;32;34;120;34;62;
-            60;97;32;66;61;49;32;98;61;39;50;39;32;99;61;34;51;34;32;100;47;62;120;60;47;65;32;62;
+            60;97;32;66;61;49;32;98;61;39;50;39;32;99;61;34;51;34;32;100;47;62;120;60;47;65;32;62;38;97;109;112;59;38;35;120;52;49;59;60;97;32;104;61;38;108;116;62;
             60;33;45;45;121;45;45;62;60;63;112;105;62;60;33;91;67;68;65;84;65;91;122;93;93;62] in
   match run_cov (fuel_for i) (init_tk dataState CNone [] false i) with
-  | Some mf => inp mf = [] /\ length (out mf) = 10%nat
+  | Some mf => inp mf = [] /\ length (out mf) = 14%nat
   | None => False
   end.
 Proof. vm_compute. split; reflexivity. Qed.
 
-(* PARTIAL.  Outside [covered] -- character references (decided separately: C14's theorems relate consumeEntity
-   to the standard's rules) and CDATA sections -- and for the glue between the model and the Python source, the
+(* PARTIAL.  Outside [covered] -- CDATA sections -- and for the glue between the model and the Python source
+   (the translator's statement vocabulary, the hand-modelled methods, the input stream), the
    equality of the two machines is decided by running both (and the implementation) on generated inputs on
    every check -- a test, not a proof. *)
